@@ -46,6 +46,19 @@ COMPONENTS_STUB = [
     "devices (sim/devices.py), event loop and clock (SimLoop) for the 're' share",
 ]
 
+RULE = (
+    "one case = one writer kind, one document sequence (generated, or emitted by the real RunEngine for a generated and "
+    "possibly interrupted plan), one pre-existing file state and, for JSON lines in 45% of the cases, 1-2 syscall faults "
+    "with or without a restarted writer; non-trivial = pre-existing content, a fault, or RunEngine-produced documents; "
+    "distinct = distinct (writer, filename, document kinds, pre-existing length, faults, restart) tuples"
+)
+ASSUMPTIONS = [
+    "the disk is modelled at write()/close() granularity (buffered text committed at close or every 8 KiB); a crash is a "
+    "process kill: committed bytes survive, buffered bytes do not",
+    "documents are JSON-compatible (no NaN/Infinity, no numpy objects), as the property states",
+    "JSONWriter is fed one run per instance (its documented use); interleaved runs are routed per run as RunRouter would",
+    "sampling, not proof",
+]
 DIR = "/data/json"
 
 
